@@ -255,6 +255,10 @@ def plan(tier):
     # a NAK while file data is being sent and a second one after the EOF (two different steps)
     specs.append(Spec("two-naks/file_data-then-eof_ack/R=1/M=3", "vf.harness.c08:h_two_steps", {"M": 3},
                       twin_share=0.1))
+    # two NAKs of two requests each (the first may be refused half-way: nothing of it may linger)
+    specs.append(Spec("two-naks/R=2/eof_ack/M=1", "vf.harness.c08:harness",
+                      {"M": 1, "R": 2, "when": "eof_ack", "second_nak": True}, twin_share=0.05,
+                      obligations=["nak_rejected", "data_retransmitted"]))
     # put request with every kind of Metadata option; two NAKs (the Metadata PDU is rebuilt twice)
     for when in ("eof_ack", "finished"):
         specs.append(Spec(f"two-naks/with-options/{when}/R=1/M=2", "vf.harness.c08:harness",
